@@ -182,6 +182,7 @@ func cmdWorker(args []string) int {
 	})
 	t0 := time.Now()
 	deadline := t0.Add(time.Duration(*secs) * time.Second)
+	traceIdx := os.Getenv("VERIF_TRACE_IDX") != ""
 	var hashes []byte
 	for i := *w; i < *runs; i += *of {
 		if time.Now().After(deadline) {
@@ -189,6 +190,10 @@ func cmdWorker(args []string) int {
 		}
 		sc := genScenario(c, *seed, i, *tier)
 		st := NewStats()
+		if traceIdx && id == "C10" {
+			// a scenario that kills the process (stack overflow, fatal runtime error) leaves its index behind
+			fmt.Fprintf(os.Stderr, "@idx %d\n", i)
+		}
 		curRun.Store(int64(i))
 		curStart.Store(time.Now().UnixNano())
 		v, harness := safeExec(c, sc, st)
@@ -394,6 +399,9 @@ func cmdRun(args []string) int {
 			if id == "C18B" {
 				cmd.Env = append(cmd.Env, "VERIF_TRACE_IDX=1", "GORACE=halt_on_error=1 exitcode=66")
 			}
+			if id == "C10" {
+				cmd.Env = append(cmd.Env, "VERIF_TRACE_IDX=1")
+			}
 			err := cmd.Run()
 			line := bytes.TrimSpace(out.Bytes())
 			if i := bytes.LastIndexByte(line, '\n'); i >= 0 {
@@ -404,6 +412,12 @@ func cmdRun(args []string) int {
 				if idx, report, ok := raceReport(errb.String()); ok {
 					// the race detector halted the worker: the scenario in flight is the finding
 					results[w].Violation = &Violation{Class: "data-race", Task: -1, Op: -1, Sig: "C18/data-race", Detail: report}
+					results[w].VIndex = idx
+				} else if m := idxRe.FindAllStringSubmatch(errb.String(), -1); id == "C10" && len(m) > 0 {
+					// the worker process died (fatal runtime error: stack overflow, concurrent map write ...)
+					// while this scenario was in flight: process safety is C10's; confirmed in a fresh process below
+					idx, _ := strconv.Atoi(m[len(m)-1][1])
+					results[w].Violation = &Violation{Class: "crash", Task: -1, Op: -1, Sig: "crash", Detail: "the worker process died: " + clip(lastFatal(errb.String()), 300)}
 					results[w].VIndex = idx
 				} else {
 					errs[w] = fmt.Sprintf("worker %d: no result (%v): %s", w, err, clip(errb.String(), 2000))
@@ -532,6 +546,20 @@ func raceReport(stderr string) (idx int, report string, ok bool) {
 		lines = lines[:40]
 	}
 	return idx, strings.Join(lines, "\n"), true
+}
+
+// lastFatal extracts the fatal-error line of a dead Go process from its stderr.
+func lastFatal(stderr string) string {
+	for _, key := range []string{"fatal error:", "runtime: goroutine stack exceeds", "panic:", "SIGSEGV"} {
+		if i := strings.Index(stderr, key); i >= 0 {
+			end := strings.IndexByte(stderr[i:], '\n')
+			if end < 0 {
+				end = len(stderr) - i
+			}
+			return stderr[i : i+end]
+		}
+	}
+	return clip(stderr, 200)
 }
 
 func fmtCounts(m map[string]int) string {
